@@ -21,7 +21,9 @@ RULE = (
     "{constant, Option, dataset}; dictionaries = product A in {absent,1,'a','{B}','p{B}q',['{B}'],{'K':'{B}'}} x B in "
     "{absent,2,'{C}',['{C}']} x C in {absent,3} x S.X in {absent,5,'{B}'} (reference depth 3); forms: Template, "
     "Option whose stored value is the template, Option whose default is the template.  Checked: value, missing-key "
-    "failure naming the absent reference, keys() >= present reads, explain() >= all reads.  Non-trivial = case whose "
+    "failure naming the absent reference, keys() >= present reads, explain() >= all reads.  Plus: 4 single-reference forms x "
+    "A ranging over every container of nesting depth <= 2 (lists / sections of lists / sections) over {1,'{B}','p{B}q'} x B x C, and 5 forms over "
+    "sections whose entries refer to their own siblings ({S.Y} inside S).  Non-trivial = case whose "
     "substitution reads at least two keys."
 )
 ASSUMPTIONS = [
@@ -44,8 +46,35 @@ def templates(maxlen=3):
             yield combo
 
 
+def _nested_values():
+    """every container of nesting depth <= 2 over {1, '{B}', 'p{B}q'}: lists / sections of lists / sections"""
+    L0 = [1, "{B}", "p{B}q"]
+    D1 = [[x] for x in L0] + [{"K": x} for x in L0]
+    D2 = []
+    for y in D1:
+        D2 += [[y], {"K": y}, [0, y], {"J": 1, "K": y}]
+    return L0 + D1 + D2
+
+
+NESTED_FORMS = [
+    ("Option('A')", ("opt", "A")),
+    ("Template('{A}')", ("tmpl", "{A}", {})),
+    ("Option('T') with T='{A}'", None),
+    ("Option('T', default='{A}')", ("opt", "T", ("tmpl", "{A}", {}))),
+]
+# sections whose entries refer to their own siblings
+SELF_SECTIONS = [{"X": "{S.Y}", "Y": 1}, {"X": "{S.Y}"}, {"X": "{S.Y}", "Y": "{B}"}, {"X": ["{S.Y}"], "Y": 1}, {"X": {"K": "{S.Y}"}, "Y": "{B}"}]
+SELF_FORMS = [
+    ("Option('S')", ("opt", "S")),
+    ("Option('S.X')", ("opt", "S.X")),
+    ("Template('{S.X}')", ("tmpl", "{S.X}", {})),
+    ("Option('T', default='{S.X}')", ("opt", "T", ("tmpl", "{S.X}", {}))),
+    ("Option('T') with T='{S}'", None),
+]
+
+
 def cases(tier, seed):
-    out = []
+    out = [("nested", i) for i in range(len(NESTED_FORMS))] + [("selfsect", i) for i in range(len(SELF_FORMS))]
     maxlen = 3 if tier == "quick" else 5
     combos = list(templates(maxlen))
     for a in range(0, len(combos), 5):
@@ -104,6 +133,27 @@ def run_case(case):
     if case[0] == "one":
         _, label, term, o = case
         res["failures"] = check(term, o, res, label)
+        return res
+    if case[0] in ("nested", "selfsect"):
+        label, term = (NESTED_FORMS if case[0] == "nested" else SELF_FORMS)[case[1]]
+        if case[0] == "nested":
+            spec = [("A", [ABSENT] + _nested_values()), ("B", [ABSENT, 2, "{C}"]), ("C", [ABSENT, 3])]
+        else:
+            spec = [("S", SELF_SECTIONS), ("B", [ABSENT, 2])]
+        reported = set()
+        for o in product_dicts(spec):
+            oo = copy.deepcopy(o)
+            t = term
+            if t is None:
+                t = ("opt", "T")
+                oo["T"] = "{A}" if case[0] == "nested" else "{S}"
+            for f in check(t, oo, res, label):
+                kind = f["sig"].split("|")[1]
+                if kind not in reported:
+                    reported.add(kind)
+                    res["failures"].append(f)
+        if case[1] == 0:
+            res["samples"].append({"space": case[0], "form": label, "example_options": oo})
         return res
     _, a, b = case[:3]
     maxlen = case[3] if len(case) > 3 else 3
